@@ -204,7 +204,8 @@ def run_c18(rep, tier, rng, replay=None):
 # ---------------------------------------------------------------- C19
 def make_c19(rng):
     g = declgen.Gen(rng, dict(p_dup=0.15, p_bad_tag=0.06, p_long_short=0.05, p_bool_default=0.1, p_group=0.5, p_namespace=0.7, p_commands=0.5,
-                              p_nsdelim_other=0.3, p_mb_short=0.2, p_choice=0.3, p_default=0.4, p_env=0.3, p_positional=0.4, p_alias=0.5))
+                              p_nsdelim_other=0.3, p_mb_short=0.2, p_choice=0.3, p_default=0.4, p_env=0.3, p_positional=0.4, p_alias=0.5,
+                              p_nsclash=rng.choice([0.0, 0.1, 0.3])))
     sc = g.gen_scenario()
     sc["ops"] = [{"op": "inspect"}, {"op": "parse", "args": []}]
     return sc
